@@ -59,7 +59,46 @@ impl World {
     }
 }
 
+thread_local! {
+    /// the run whose tape decides the lock-acquisition yields (hook H3), and (percentage, consecutive yields)
+    static LOCK_SIM: RefCell<Option<(Sim, u64, u32)>> = const { RefCell::new(None) };
+}
+
+/// Hook H3: consulted by tonic-health before every acquisition of the status-map lock; `true`
+/// makes the acquiring task yield, so that the executor can run another task in the gap — the
+/// interleavings a multi-threaded runtime produces between lock acquisitions.
+fn lock_hook(kind: &'static str) -> bool {
+    LOCK_SIM.with(|l| {
+        let mut l = l.borrow_mut();
+        let Some((sim, pct, consec)) = l.as_mut() else { return false };
+        if *pct == 0 {
+            return false;
+        }
+        if *consec < 3 && sim.chance(*pct, 100) {
+            *consec += 1;
+            sim.fault(if kind == "write" { "lock-yield-before-write" } else { "lock-yield-before-read" });
+            true
+        } else {
+            *consec = 0;
+            false
+        }
+    })
+}
+
+struct LockHookGuard;
+impl Drop for LockHookGuard {
+    fn drop(&mut self) {
+        tonic_health::verif_hooks::set_lock_hook(None);
+        LOCK_SIM.with(|l| *l.borrow_mut() = None);
+    }
+}
+
 pub fn run(sim: &Sim, _idx: u64) {
+    // swarm: in half of the runs every lock acquisition may yield first (25 % or 50 %)
+    let lock_yield_pct = sim.pick(&[0u64, 0, 25, 50]);
+    LOCK_SIM.with(|l| *l.borrow_mut() = Some((sim.clone(), lock_yield_pct, 0)));
+    tonic_health::verif_hooks::set_lock_hook(Some(lock_hook));
+    let _guard = LockHookGuard;
     let (reporter, server) = tonic_health::server::health_reporter();
     let world = Rc::new(RefCell::new(World::default()));
     let mut exec = Exec::new();
